@@ -287,6 +287,8 @@ type Req struct {
 	HTTP    func(args *plugin.HTTPServerArgs) error
 	RT      http.RoundTripper
 	NoFetch bool // use pprof's own fetcher (files / URLs)
+	// DefaultSym: let pprof build its own symbolizer on top of Obj and RT
+	DefaultSym bool
 }
 
 // Res is the outcome.
@@ -376,7 +378,7 @@ func Run(q Req) *Res {
 	if o.Obj == nil {
 		o.Obj = NoObj{}
 	}
-	if o.Sym == nil {
+	if o.Sym == nil && !q.DefaultSym {
 		o.Sym = NoSym{}
 	}
 	if o.HTTPTransport == nil {
